@@ -47,6 +47,9 @@ pub struct Session {
 /// cases and replayed cases take exactly the same path.
 pub fn exec_line(sess: &mut Session, line: &str, out: &mut Out) -> Vec<String> {
     out.line(&format!("> {}", line));
+    // the input line reaches the pipe before it is executed: if the implementation aborts the whole
+    // process (allocation failure, stack overflow, abort()), the trace ends with the input that did it
+    let _ = out.w.flush();
     let toks: Vec<&str> = line.split(' ').collect();
     let res = catch_unwind(AssertUnwindSafe(|| engines::dispatch(sess, &toks)));
     match res {
